@@ -97,6 +97,33 @@ type TgEmbed struct {
 	Z    int
 }
 
+// embedded shapes that need care in the encoder: a recursive self-embedding, two types that embed each other through
+// a named field, embedded structs whose first member is an omitempty interface / struct / double pointer
+type TgRecEmb struct {
+	A int
+	*TgRecEmb
+}
+type TgMutEmbA struct {
+	X int
+	B TgMutEmbB
+}
+type TgMutEmbB struct {
+	Y int
+	*TgMutEmbA
+}
+type TgEmbOmitI struct {
+	Extra interface{} `json:"extra,omitempty"`
+	Note  string      `json:"note,omitempty"`
+}
+type TgEmbOmitS struct {
+	In struct{ Z int } `json:"in,omitempty"`
+	W  int             `json:"w"`
+}
+type TgEmbOmitP struct {
+	PP **int `json:"pp,omitempty"`
+	V  bool  `json:"v,omitempty"`
+}
+
 type TgNamedStr string
 type TgNamedInt int64
 type TgNamedSlice []int
@@ -107,6 +134,7 @@ var tgNamed = []reflect.Type{
 	reflect.TypeOf(TgRec{}), reflect.TypeOf(TgMutA{}), reflect.TypeOf(TgEmbed{}), reflect.TypeOf(time.Time{}),
 	reflect.TypeOf(stdjson.Number("")), reflect.TypeOf(stdjson.RawMessage(nil)), reflect.TypeOf(TgNamedStr("")),
 	reflect.TypeOf(TgNamedInt(0)), reflect.TypeOf(TgNamedSlice(nil)), reflect.TypeOf(TgNamedMap(nil)), reflect.TypeOf(TgIntKey(0)),
+	reflect.TypeOf(TgRecEmb{}), reflect.TypeOf(TgMutEmbA{}), reflect.TypeOf(map[stdjson.Number]int(nil)),
 }
 
 var tgBasic = []reflect.Type{
@@ -183,7 +211,7 @@ func tgStruct(r *rand.Rand, depth int, o tgOpts) reflect.Type {
 	for i := 0; i < n; i++ {
 		name := fmt.Sprintf("F%d", i)
 		ft := tgType(r, depth, o)
-		if ft == reflect.TypeOf(TgRec{}) || ft == reflect.TypeOf(TgMutA{}) {
+		if ft == reflect.TypeOf(TgRec{}) || ft == reflect.TypeOf(TgMutA{}) || ft == reflect.TypeOf(TgRecEmb{}) || ft == reflect.TypeOf(TgMutEmbA{}) {
 			// recorded finding RecursiveStructByValueField: a recursive struct held by value in a struct that is itself
 			// reached through a pointer field; the generator keeps recursive types behind pointers, in slices, maps and at top level
 			ft = reflect.PtrTo(ft)
@@ -191,7 +219,8 @@ func tgStruct(r *rand.Rand, depth int, o tgOpts) reflect.Type {
 		f := reflect.StructField{Name: name, Type: ft}
 		if o.named && r.Intn(9) == 0 {
 			// embedded named struct (value or pointer)
-			et := []reflect.Type{reflect.TypeOf(TgEmbBase{}), reflect.TypeOf(TgEmbPtr{}), reflect.TypeOf(TgEmbOther{})}[r.Intn(3)]
+			et := []reflect.Type{reflect.TypeOf(TgEmbBase{}), reflect.TypeOf(TgEmbPtr{}), reflect.TypeOf(TgEmbOther{}),
+				reflect.TypeOf(TgEmbOmitI{}), reflect.TypeOf(TgEmbOmitS{}), reflect.TypeOf(TgRecEmb{})}[r.Intn(6)] // TgEmbOmitP: see finding EmbeddedPtrFirstFieldDoublePtr and its probe
 			if !used[et.Name()] {
 				used[et.Name()] = true
 				if r.Intn(2) == 0 {
@@ -576,7 +605,14 @@ func tgKnownBadAnywhere(t reflect.Type, depth int) string {
 			return ""
 		}
 		for i := 0; i < t.NumField(); i++ {
-			if c := tgKnownBadAnywhere(t.Field(i).Type, depth+1); c != "" {
+			f := t.Field(i)
+			// recorded finding EmbeddedPtrFirstFieldDoublePtr: an embedded pointer to a struct whose first field is a pointer to a pointer
+			if f.Anonymous && f.Type.Kind() == reflect.Ptr && f.Type.Elem().Kind() == reflect.Struct && f.Type.Elem().NumField() > 0 {
+				if ff := f.Type.Elem().Field(0).Type; ff.Kind() == reflect.Ptr && ff.Elem().Kind() == reflect.Ptr {
+					return "EmbeddedPtrFirstFieldDoublePtr"
+				}
+			}
+			if c := tgKnownBadAnywhere(f.Type, depth+1); c != "" {
 				return c
 			}
 		}
